@@ -115,11 +115,13 @@ where
         if i >= n {
             return Err(ErrorDecodingError::ErrorsOutsideRange);
         }
-        let mut idx = (n - i - 1) * stride;
-        if idx < data.len() {
+        // position in the block, counted from its first data codeword
+        let pos = n - i - 1;
+        if pos < n_data {
+            let idx = pos * stride;
             data[idx] = (GF(data[idx]) - *err).into();
         } else {
-            idx -= data.len();
+            let idx = (pos - n_data) * stride;
             error[idx] = (GF(error[idx]) - *err).into();
         }
     }
